@@ -1,9 +1,119 @@
 import SoundeventModel.Ops.Common
+import SoundeventModel.Encoding
 namespace SE.Ops.C19
-open Lean SE
+open Lean SE SE.Encoding
 
-def handle (op : String) (_a : Json) : Except String Json := do
+def fldOptStr (j : Json) (k : String) : Except String (Option String) :=
+  match fldOpt j k with
+  | none => .ok none
+  | some v => do return some (← v.getStr?)
+
+def getTerm (j : Json) : Except String Encoding.Term := do
+  let extra ← (← fldArr j "extra").mapM fun p => do
+    match ← getArr p with
+    | [k, v] => return (← k.getStr?, ← v.getStr?)
+    | _ => .error "extra: expected pair"
+  return {
+    label := ← fldStr j "label", definition := ← fldStr j "definition", name := ← fldStr j "name",
+    uri := ← fldOptStr j "uri", typeOfTerm := ← fldStr j "type_of_term",
+    comment := ← fldOptStr j "comment", see := ← fldOptStr j "see",
+    subpropertyOf := ← fldOptStr j "subproperty_of", subclassOf := ← fldOptStr j "subclass_of",
+    domain := ← fldOptStr j "domain", domainIncludes := ← fldOptStr j "domain_includes",
+    termRange := ← fldOptStr j "term_range", rangeIncludes := ← fldOptStr j "range_includes",
+    memberOf := ← fldOptStr j "member_of", instanceOf := ← fldOptStr j "instance_of",
+    equivalentProperty := ← fldOptStr j "equivalent_property", description := ← fldOptStr j "description",
+    scopeNote := ← fldOptStr j "scope_note", extra := extra }
+
+def getTag (j : Json) : Except String Tag := do
+  return { term := ← getTerm (← fld j "term"), value := ← fldStr j "value" }
+
+def getTags (j : Json) (k : String) : Except String (List Tag) := do (← fldArr j k).mapM getTag
+
+/-- predicted tags with the binary32 value of each score as computed by the harness -/
+def getPreds (j : Json) (k : String) : Except String (List PredictedTag × List (Rat × Rat)) := do
+  let ps ← (← fldArr j k).mapM fun p => do
+    let t ← getTag (← fld p "tag")
+    let s ← fldRat p "score"
+    let s32 ← fldRat p "score32"
+    return (({ tag := t, score := s } : PredictedTag), (s, s32))
+  return (ps.map (·.1), ps.map (·.2))
+
+def castOf (tbl : List (Rat × Rat)) (q : Rat) : Rat :=
+  match tbl.find? (fun p => p.1 == q) with
+  | some p => p.2
+  | none => q
+
+def optStrJ : Option String → Json
+  | none => Json.null
+  | some s => Json.str s
+
+def termJ (t : Encoding.Term) : Json := Json.mkObj [
+  ("label", t.label), ("definition", t.definition), ("name", t.name), ("uri", optStrJ t.uri),
+  ("type_of_term", t.typeOfTerm), ("comment", optStrJ t.comment), ("see", optStrJ t.see),
+  ("subproperty_of", optStrJ t.subpropertyOf), ("subclass_of", optStrJ t.subclassOf),
+  ("domain", optStrJ t.domain), ("domain_includes", optStrJ t.domainIncludes),
+  ("term_range", optStrJ t.termRange), ("range_includes", optStrJ t.rangeIncludes),
+  ("member_of", optStrJ t.memberOf), ("instance_of", optStrJ t.instanceOf),
+  ("equivalent_property", optStrJ t.equivalentProperty), ("description", optStrJ t.description),
+  ("scope_note", optStrJ t.scopeNote),
+  ("extra", arrJ (t.extra.map fun (k, v) => arrJ [Json.str k, Json.str v]))]
+
+def tagJ (t : Tag) : Json := Json.mkObj [("term", termJ t.term), ("value", t.value)]
+
+/-- value trees: null | bool | {"s": str} | {"q": rat} | {"l": [..]} | {"t": [..]} | {"o": cls, "n": [..], "v": [..]} -/
+partial def getVal (j : Json) : Except String Val := do
+  match j with
+  | .null => return .none
+  | .bool b => return .bool b
+  | _ =>
+    if let some s := fldOpt j "s" then return .str (← s.getStr?)
+    if let some q := fldOpt j "q" then return .num (← getRat q)
+    if let some l := fldOpt j "l" then return .list (← (← getArr l).mapM getVal)
+    if let some l := fldOpt j "t" then return .tuple (← (← getArr l).mapM getVal)
+    if let some c := fldOpt j "o" then
+      let names ← (← fldArr j "n").mapM (·.getStr?)
+      let vals ← (← fldArr j "v").mapM getVal
+      if names.length ≠ vals.length then .error "object: names/values length"
+      return .obj (← c.getStr?) names vals
+    .error s!"bad value {j.compress}"
+
+def keyEq : Option (List Val) → Option (List Val) → Bool
+  | some a, some b => Val.beqList a b
+  | _, _ => false
+
+def handle (op : String) (a : Json) : Except String Json := do
   match op with
+  | "encoder" =>
+    let vocab ← getTags a "vocab"
+    let tags ← getTags a "tags"
+    return Json.mkObj [
+      ("num_classes", natJ (numClasses vocab)),
+      ("encode", arrJ (tags.map fun t => optJ natJ (encode vocab t))),
+      ("decode", arrJ ((List.range vocab.length).map fun i => optJ tagJ (decode vocab i)))]
+  | "classification" =>
+    return optJ natJ (classificationEncoding (← getTags a "vocab") (← getTags a "tags"))
+  | "multilabel" =>
+    return natsJ (multilabelEncoding (← getTags a "vocab") (← getTags a "tags"))
+  | "prediction" =>
+    let (preds, tbl) ← getPreds a "preds"
+    return ratsJ (predictionEncoding (castOf tbl) (← getTags a "vocab") preds)
+  | "holds_classification" =>
+    let out ← match fldOpt a "out" with
+      | none => pure none
+      | some v => do pure (some (← v.getNat?))
+    return boolJ (holdsClassification (← getTags a "vocab") (← getTags a "tags") out)
+  | "holds_multilabel" =>
+    return boolJ (holdsMultilabel (← getTags a "vocab") (← getTags a "tags") (← getNatList (← fld a "out")))
+  | "holds_prediction" =>
+    let (preds, tbl) ← getPreds a "preds"
+    return boolJ (holdsPrediction (castOf tbl) (← getTags a "vocab") preds (← getRatList (← fld a "out")))
+  | "tag_eq" =>
+    return boolJ (decide ((← getTag (← fld a "a")) = (← getTag (← fld a "b"))))
+  | "eq_hash" =>
+    let x ← getVal (← fld a "a")
+    let y ← getVal (← fld a "b")
+    return Json.mkObj [("eq", boolJ (Val.beq x y)), ("same_key", boolJ (keyEq (hashKey x) (hashKey y))),
+                       ("has_key", boolJ ((hashKey x).isSome && (hashKey y).isSome))]
   | _ => .error s!"C19: unknown op {op}"
 
 end SE.Ops.C19
